@@ -84,7 +84,7 @@ def run(tier, rep, replay=None):
 
 
 MANIFEST = {
- "text": "GroupMachine.tla tracks, for every register, its coefficient modulo the group order (as BigNat, with untrusted quotient hints) through fixed-base, variable-base, addition, doubling, negation, double-scalar multiplication, decode(encode), pairings and products of pairings, and requires every observed equality / identity test (IsEqual and canonical bytes) to say exactly what the forms say; a toy curve of prime order is checked exhaustively to be a group generated by G with 'same element iff same form'. Recorders drive ecc/p384 (both back-ends), the internal edwards25519 group of sign/ed25519 (in package: signed-digit fixed-base multiplication, omega-NAF double-scalar multiplication, mixed additions), group.P256/P384/P521/ristretto255, Goldilocks, FourQ (x392), BLS12-381 G1/G2/Gt and Pair/ProdPair/ProdPairFrac with structured scalars of full width (0, 1, multiples of the order and neighbours, 2^k, maximum, recoding corner patterns), related points (P+P, P+(-P), Q=G, m=n, m=-n) and identity inputs; TLC validates every sub-trace.",
+ "text": "GroupMachine.tla tracks, for every register, its coefficient modulo the group order (as BigNat, with untrusted quotient hints) through fixed-base, variable-base, addition, doubling, negation, double-scalar multiplication, decode(encode), pairings and products of pairings, and requires every observed equality / identity test (IsEqual and canonical bytes) to say exactly what the forms say; a toy curve of prime order is checked exhaustively to be a group generated by G with 'same element iff same form'. Recorders drive ecc/p384 (both back-ends), the internal edwards25519 group of sign/ed25519 (in package: signed-digit fixed-base multiplication, omega-NAF double-scalar multiplication, mixed additions), group.P256/P384/P521/ristretto255, Goldilocks, FourQ (x392), BLS12-381 G1/G2/Gt and Pair/ProdPair/ProdPairFrac with structured scalars of full width (0, 1, multiples of the order and neighbours, 2^k, maximum, recoding corner patterns), related points (P+P, P+(-P), Q=G, m=n, m=-n) and identity inputs; TLC validates every sub-trace. A deterministic sweep drives the fixed-base path over scalars with runs of 64 / 65 one bits at every offset and compares it with the double-scalar path.",
  "note": "Seeded sampling of operation sequences (5 sub-traces of 13 steps per group and configuration in quick, 240 x 16 in thorough). Hash-to-group membership is covered in C09/C16.",
  "technique": "TLA+ Z_L-module specification with BigNat; TLC trace validation of real group operations with untrusted quotient hints; toy-curve exhaustive check of the group law",
 }
